@@ -7,6 +7,7 @@ mod paths;
 mod facts;
 mod files;
 mod gen;
+mod minrun;
 mod mmaprun;
 mod sched;
 mod tables;
@@ -54,6 +55,9 @@ fn main() {
         ["trace", "ctrstress", ..] => ctrrun::stress(arg(&a, 2), arg(&a, 3), &a[4], arg(&a, 5)),
         ["trace", "coverage", ..] => covrun::trace(arg(&a, 2), arg(&a, 3), &a[4], arg(&a, 5), &a[6]),
         ["trace", "idx", ..] => covrun::idx(arg(&a, 2), arg(&a, 3), &a[4]),
+        ["trace", "minout", ..] => minrun::free(arg(&a, 2), arg(&a, 3), &a[4], arg(&a, 5)),
+        ["replay", "minout", ..] => minrun::replay(&a[2], arg(&a, 3), &a[4], arg(&a, 5), arg(&a, 6), a[7] == "m2s"),
+        ["decode", "minout", ..] => minrun::decode(&a[2], &a[3], a[4] == "m2s", arg(&a, 5), arg(&a, 6)),
         ["replay", "counter", ..] => ctrrun::replay(&a[2], arg(&a, 3), arg(&a, 4), &a[5], arg(&a, 6), arg(&a, 7)),
         ["table", "revcomp", ..] => tables::revcomp(arg(&a, 2)),
         ["table", "posmap", ..] => tables::posmap(arg(&a, 2)),
